@@ -181,7 +181,7 @@ def known_layout(name, ver, dirn, path):
 
 # --------------------------------------------------------------------------- tokens
 def spec_tokens(toks):
-    """Tokens of the encoder's message in comparable form (null strings/arrays are reported as empty)."""
+    """Tokens of the encoder's message in comparable form (null strings are reported as empty; a null array has count -1)."""
     out = []
     for t in toks:
         k = t["k"]
@@ -194,7 +194,7 @@ def spec_tokens(toks):
         elif k in ("s", "y"):
             out.append(("s", t.get("s", "")))
         elif k == "n":
-            out.append(("n", max(t["v"], 0)))
+            out.append(("n", -1 if t["v"] < 0 else t["v"]))
         elif k == "o":
             out.append(("opaque",))
         else:
@@ -216,7 +216,7 @@ def impl_tokens(v):
         elif "b" in x:
             out.append(("s", x["b"]))
         elif "a" in x:
-            out.append(("n", len(x["a"])))
+            out.append(("n", -1 if x.get("null") else len(x["a"])))
             for e in x["a"]:
                 go(e)
         else:
